@@ -41,12 +41,14 @@ Addressed(r, t, i) ==
   /\ LET sz == Size(Cfg.tags[t].type)
          first == IF r.svc = "writef" /\ sz # 0 THEN Idx0(r) + r.off \div sz ELSE Idx0(r)
      IN IF r.svc = "sas" THEN TRUE ELSE i > first /\ i <= first + Len(r.vals)
+\* DEVIATION(code): a write to a tag configured with a forced error code is carried out and THEN answered with that code
+ForcedWrite(r, o) == r.tag # 0 /\ r.svc \in {"write", "writef"} /\ Forced(Cfg, r.tag) # 0 /\ o.k = "err" /\ o.st = Forced(Cfg, r.tag) /\ o.ext = <<>>
 FrameOK == [][ \A t \in 1 .. Len(Cfg.tags) : \A i \in 1 .. Cfg.tags[t].len :
                  mem'[t][i] # mem[t][i] =>
-                    /\ op'.req.svc \in {"write", "writef", "sas"} /\ op'.out.k = "ok"
+                    /\ op'.req.svc \in {"write", "writef", "sas"} /\ (op'.out.k = "ok" \/ ForcedWrite(op'.req, op'.out))
                     /\ Addressed(op'.req, t, i) ]_vars
 \* C05: a refused request changes nothing
-RefusedNoChange == [][ op'.out.k \in {"err", "anyfail"} => mem' = mem ]_vars
+RefusedNoChange == [][ (op'.out.k \in {"err", "anyfail"} /\ ~ForcedWrite(op'.req, op'.out)) => mem' = mem ]_vars
 \* C03 read-your-writes: a successful read returns exactly what memory holds
 ReadsMemory == [][ (op'.req.svc \in {"read", "readf"} /\ op'.out.k = "ok" /\ Len(op'.out.data) > 0) =>
                      \E f \in 0 .. (Cfg.tags[op'.req.tag].len - 1) :
